@@ -23,6 +23,26 @@ def plan(tier, seed):
                                                                                   optional_element=oe), env=envv)
                 j["name"] += "[n=%d,list=%d,elem=%d]" % (n, ol, oe)
                 jobs.append(j)
+            # dictionary page + data pages that are dictionary-encoded or PLAIN (fallback inside a chunk)
+            for encs in (("d,p", "p,d") if (tier == "quick" and (ol, oe) in ((1, 1), (0, 0))) else
+                         (() if tier == "quick" else ("d,p", "p,d", "d,d"))):
+                j = ch("C15", F, "h_read_col_list_mixed", t, ["core.read_col", "cencoding._assemble_objects",
+                                                             "schema.SchemaHelper"],
+                       shape=dict(n=n, optional_list=ol, optional_element=oe, page_encodings=encs),
+                       env=dict(envv, VERIF_ENCS=encs))
+                j["name"] += "[n=%d,list=%d,elem=%d,encs=%s]" % (n, ol, oe, encs)
+                jobs.append(j)
+            # DATA_PAGE_V2 pages (dictionary values): real read_col -> real read_data_page_v2 -> lifted assembler
+            import itertools
+            for k in range(0, min(n, 4)):
+                for sp in itertools.combinations(range(1, n), k):
+                    j = ch("C15", "vf/pyxlift/h_c15v2.py", "h_read_col_list_v2", t,
+                           ["core.read_col", "core.read_data_page_v2 (repeated-column branch)",
+                            "cencoding._assemble_objects", "schema.SchemaHelper"],
+                           shape=dict(n=n, optional_list=ol, optional_element=oe, v2_page_boundaries=list(sp)),
+                           env=dict(envv, VERIF_SPLITS=",".join(map(str, sp))))
+                    j["name"] += "[n=%d,list=%d,elem=%d,splits=%s]" % (n, ol, oe, "-".join(map(str, sp)) or "none")
+                    jobs.append(j)
     for h in ("h_levels", "h_list_shape", "h_map_shape"):
         jobs.append(ch("C15", "vf/pyshim/h_schema.py", h, t, ["schema.SchemaHelper", "schema._is_list_like",
                                                              "schema._is_map_like"]))
